@@ -51,7 +51,7 @@ def run_stop(env, op_name, variables, oseed, density, plan, schedule, early, sto
     from graphql.pyutils import AbortController
 
     oracle = R5.Oracle(env.m, oseed, density)
-    sched = Sched(schedule, max_steps=60000 if plan.long else 4000)
+    sched = Sched(schedule, max_steps=20000 if plan.long else 4000)
     events, log, sources = [], [], []
     stats = {"inflight": 0}
     resolve, resolve_type = make_async_resolvers(oracle, sched, plan, events, log, env.out_names,
@@ -298,7 +298,8 @@ def g_scenario(c, n_sched=3):
         # back-pressure stratum: top-level lists stretched to just below / at / above the capacity (100) of
         # the stream item queue, so that the producer parks on the full queue or on its final entry
         long = c.choose([99, 100, 101, 102, 103, 130])
-        sc["plans"] = [list(p[:5]) + [long] for p in sc["plans"]]
+        # few awaitable fields: a stretched list multiplies every gate below it by a hundred
+        sc["plans"] = [[p[0], min(p[1], 40), min(p[2], 80), p[3], min(p[4], 12), long] for p in sc["plans"]]
         sc["long"] = long
     return sc
 
@@ -341,6 +342,9 @@ BP_DOCS = [
     # two levels of "settle in the background": P.fail fails synchronously while q is pending; when q arrives,
     # Q.fail2 fails synchronously while slow is pending
     "{ p { q { slow fail2 } fail } ys(n: %d) @stream(initialCount: %d) }",
+    # a long stream inside a deferred fragment whose execution group is still waiting for q / slow: on abort the
+    # group fails with the abort reason and cleans its stream up while the work queue cancels it
+    "{ ... @defer(label: \"D0\") { ys(n: %d) @stream(initialCount: %d) p { q { slow } } } }",
 ]
 _BP = {}
 
@@ -570,7 +574,7 @@ def eval_backpressure(case, prop="C06"):
     if out["unhandled"]:
         bad("unhandled-loop-exception", f"{out['unhandled'][:2]}")
     # completeness / order / no duplicates when the consumer reads to the end and nothing fails
-    name = ["ys", "xs", "xs", "zs", "ys", "ys"][case["doc"]]
+    name = ["ys", "xs", "xs", "zs", "ys", "ys", "ys"][case["doc"]]
     if stop["kind"] == "none" and out["end"] == "stop":
         init = out["initial"].get("data") or {}
         got = list(init.get(name) or [])
